@@ -12,26 +12,45 @@ RULE = ("diagrams as in C01 plus 6_2, 7_4, 8_19, L6a4 (thorough: also 6_3, 7_7, 
         "which changes neither d.d=0 nor homogeneity); rational rings are "
         "additionally checked by the library's own d.d=0 test (kind rc); the Z[H,T] (reduced: Z[H]) complex specialised at integer "
         "points is compared with the homology table of the complex built directly with those parameters (kind sp). "
-        "non-trivial = a dump with at least one non-zero differential entry; distinct = distinct case lines")
+        "Cobordism evaluation (the library's cob.rs run directly; model Model/CobEval.v, theorems Properties/C05Cob.v): "
+        "kind ce = every closed component with genus, X-dots, Y-dots <= 6 at every (h,t) in {0,1,-1,2,3}^2 over i64 and "
+        "symbolically over Z[H,T] (exhaustive), plus random genus <= 8 (thorough 10), dots <= 12 with BigInt parameters of up "
+        "to 40 digits (thorough: also genus 7..9, dots <= 8 symbolically): CobComp::eval, CobComp::part_eval, Cob::part_eval, "
+        "Cob::eval, LcCob::eval, deg, euler_num, is_zero_cob, is_unit_cob, should_part_eval must equal the model's (CobComp::eval "
+        "against the literal fuel transcription of the Rust match, part_eval against the structural recursion); kind co = "
+        "components with boundary (cylinder, cup, cap, arc identity, saddle, merge) x genus <= 3 x dots <= 4 x 6 points (+ random "
+        "BigInt): the three coefficients of CobComp::part_eval and Cob::part_eval; kind cp = random cobordisms of 0..4 closed "
+        "components over i64 / BigInt / Z[H,T]: Cob::eval, Cob::part_eval, Cob::deg. "
+        "non-trivial = a dump with at least one non-zero differential entry, resp. a cobordism case whose values are not all "
+        "zero; distinct = distinct case lines")
 
 
 def nontrivial(case, impl):
+    if case[:3] in ("ce ", "co ", "cp "):
+        return any(ch in "123456789" for ch in impl.split(" deg=")[0].split(" s=")[0])
     return "*" in case
 
 
 def run(ctx):
-    obl = C.coq_obligations(ctx.pid, ["Extract/ExtractC05.vo"])
+    obl = C.coq_obligations(ctx.pid, ["Extract/ExtractC05.vo"], more_props=["C05Cob"])
     extra = {}
     if ctx.thorough:
-        extra.update(C.coqchk(ctx.pid))
+        extra.update(C.coqchk(ctx.pid, more_props=["C05Cob"]))
     corr = C.correspondence(ctx, "c05", nontrivial)
     return C.finish(ctx, "other", obl, corr, RULE, extra_cov=extra,
                     assumptions=["the checker validates each returned complex; that every link yields a complex is sampled",
                                  "rational matrices are scaled by their common denominator before the Gallina checker sees them",
-                                 "homology of the specialised complex uses the oracle's sparse Smith diagonalisation (KhHomology.smith_loop)"],
+                                 "homology of the specialised complex uses the oracle's sparse Smith diagonalisation (KhHomology.smith_loop)",
+                                 "Lc<Cob,R> (hash map without zero coefficients) is modelled as the free module on the at most three "
+                                 "generators that the recursion of CobComp::part_eval can produce"],
                     explain=("Level 'other': per-output validation by a Gallina checker (extracted), with proved meaning of a passing "
                              "verdict and proved evaluation homomorphism; plus exact comparison of the specialised (H,T)-complex's homology "
-                             "with the directly built one. The universally quantified claim about the implementation is sampled."))
+                             "with the directly built one. The universally quantified claim about the implementation is sampled. "
+                             "Proved for all inputs (Properties/C05Cob.v) about the mirrored cobordism evaluation of cob.rs: closed form "
+                             "eps(Hd^g X^x Y^y) in Z[X]/(X^2-hX-t), termination of the literal recursion, soundness of the is_zero_cob / "
+                             "is_unit_cob / should_part_eval shortcuts, multiplicativity of Cob::eval, Cob::part_eval = Cob::eval on closed "
+                             "cobordisms, homogeneity of degree CobComp::deg with deg H = -2, deg T = -4, the delooping identities; the mirror "
+                             "is tied to the library's cob.rs by the exhaustive / random ce, co, cp cases."))
 
 
 def replay(ctx, payload):
